@@ -25,6 +25,9 @@ ENV["CARGO_NET_OFFLINE"] = "true"
 ENV.setdefault("CARGO_TERM_COLOR", "never")
 # never let a developer's RUSTFLAGS leak into the monitored build
 ENV.pop("RUSTFLAGS", None)
+# one malloc arena: the harness creates a fresh thread per case, and per-thread arenas make
+# thread start/exit several times more expensive
+ENV["MALLOC_ARENA_MAX"] = "1"
 
 
 class Inconclusive(Exception):
@@ -112,6 +115,10 @@ def run_lv(ctx, profile, extra=None, prop=None, timeout=3600, tier=None):
                            stderr=subprocess.DEVNULL, timeout=timeout, env=ENV)
     except subprocess.TimeoutExpired:
         raise Inconclusive("harness watchdog (%ds) fired for %s" % (timeout, " ".join(cmd)))
+    if p.returncode == 3 and os.path.exists(out + ".stuck"):
+        # A case exceeded the wall-clock nomination time: decide on CPU time, in isolation.
+        case = int(open(out + ".stuck").read().strip())
+        return _confirm_stuck(ctx, cmd, out, case)
     if p.returncode != 0 or not os.path.exists(out):
         raise Inconclusive("harness process ended with status %s without a result: %s"
                            % (p.returncode, " ".join(cmd)))
@@ -119,6 +126,30 @@ def run_lv(ctx, profile, extra=None, prop=None, timeout=3600, tier=None):
         doc = json.load(f)
     doc["_cmd"] = cmd
     return doc
+
+
+def _confirm_stuck(ctx, cmd, out, case, cpu_limit=120):
+    import resource
+
+    def limit():
+        resource.setrlimit(resource.RLIMIT_CPU, (cpu_limit, cpu_limit + 5))
+    single = cmd + ["--only-case", str(case), "--threads", "1"]
+    if os.path.exists(out):
+        os.remove(out)
+    p = subprocess.run(single, stdin=subprocess.DEVNULL, stdout=subprocess.DEVNULL,
+                       stderr=subprocess.DEVNULL, env=ENV, preexec_fn=limit)
+    if p.returncode in (-24, -9, 3):  # SIGXCPU / SIGKILL by the limit / nominated again
+        prop = cmd[1]
+        return {"property": prop, "tier": cmd[3], "seed": int(cmd[5]), "profile": cmd[7],
+                "evaluations": 1, "distinct_nontrivial": 1, "classes": {"nonterminating_case": 1},
+                "samples": [], "floors_missing": [], "inconclusive": {}, "exhaustive": False,
+                "violation_counts": {"%s/no-termination" % prop: 1},
+                "violations": [{"key": "%s/no-termination" % prop, "case": case,
+                                "what": "case %d used more than %d s of CPU time in isolation (normal cost: milliseconds); the rest of the workload was not run" % (case, cpu_limit),
+                                "detail": {"case": case, "cmd": single}}],
+                "wall_s": 0.0, "extra": {}, "_cmd": cmd}
+    raise Inconclusive("case %d of %s was nominated as stuck but finished within the CPU limit when re-run alone (status %s); workload not completed"
+                       % (case, cmd[1], p.returncode))
 
 
 class Result:
